@@ -383,16 +383,16 @@ def model_checking(ctx):
     if tier == "thorough":
         inv_cfgs.append(("SilkEncCtl_mc_bwfree.cfg", "bandwidth-switch machine, arbitrary opusCanSwitch, prefill 2", 8))
     for cfg, what, w in inv_cfgs:
-        r = ctx.mc("SilkEncCtl_mc", cfg, what=what, workers=w, timeout=2400)
+        r = ctx.mc("SilkEncCtl_mc", cfg, what=what, workers=w, timeout=2400, heap="3g")
         if r.violation:
             raise vf.Infra("SilkEncCtl theorem %s violated (%s):\n%s" % (r.violation, cfg, r.state_dump[:3000]))
-    r = ctx.mc("SilkEncCtl_mc", "SilkEncCtl_mc_live.cfg", what="liveness: a requested lower rate is eventually reached (WF)", workers=4, timeout=1200)
+    r = ctx.mc("SilkEncCtl_mc", "SilkEncCtl_mc_live.cfg", what="liveness: a requested lower rate is eventually reached (WF)", workers=4, timeout=1200, heap="3g")
     if r.violation:
         raise vf.Infra("SilkEncCtl liveness violated:\n%s" % r.state_dump[:3000])
 
     def wit(w):
         cfg, inv = w
-        return w, vf.tlc("SilkEncCtl_mc", cfg, workers=2, timeout=900)
+        return w, vf.tlc("SilkEncCtl_mc", cfg, workers=2, timeout=900, heap="2g")
     for (cfg, inv), r in vf.parallel(wit, WITNESSES, nproc=4):
         if r.error:
             raise vf.Infra("witness %s: %s" % (cfg, r.error))
